@@ -270,15 +270,16 @@ def nontrivial(case, out):
 
 def run(ctx):
     ctx.regen_consts()
-    ctx.prove("props/C04.v", THEOREMS, extra_trusted=[
+    extra = [
         "models coq/model/PutValidation.v and coq/model/PutStore.v (hand-written) tied to put_validation.rs / "
         "record_store.rs by this run's correspondence and by the regenerated constants (RecordKind wire tags, presence "
         "of the record-key check in the unpaid register branch)",
         "harness/crates/c03 (real Node around a harness-driven Network; real NodeRecordStore for RecordStore::put), "
-        "tools/props/putval.py and C04.py (generator, oracle, canonicaliser)"])
+        "tools/props/putval.py and C04.py (generator, oracle, canonicaliser)"]
+    ctx.prove("props/C04.v", THEOREMS, extra_trusted=extra)
     binary = ctx.cargo_build("c03")
     cases = ctx.corpus() + ([] if ctx.replay else gen(ctx))
     ctx.cov["exhaustive"] = not ctx.replay
-    ctx.pipeline(cases, binary, oracle, model_term, IMPORTS, nontrivial=nontrivial, show=show, shard_size=120,
+    pv.pipeline(ctx, "props/C04.v", THEOREMS, extra, cases, binary, oracle, model_term, IMPORTS, nontrivial=nontrivial, show=show, shard_size=120,
                  relation="validate_and_store_record / store_replicated_in_record == PutValidation.sched_run; "
                           "NodeRecordStore::put == PutStore.rs_put")
